@@ -150,6 +150,41 @@ fn unknown<'a>(r: &'a Runner, known: &Known) -> Vec<&'a Violation> {
     r.judge.violations.iter().filter(|v| !known.is_known(v)).collect()
 }
 
+/// Second shrinking pass, on the concrete steps: drop every step whose removal keeps a
+/// violation with the same structural signature (later steps that lose their precondition
+/// are simply refused). Returns the minimised case and the runner that executed it.
+pub fn minimise_steps(prop: Prop, r: &Runner, signature: &str, known: &Known) -> Option<(Value, Runner)> {
+    let mut case = r.case_json("");
+    case["probe_seed"] = json!(r.judge.probe_seed);
+    let still_fails = |c: &Value| -> Option<Runner> {
+        let rr = replay::run_case(prop, c, 1000).ok()?;
+        if rr.judge.violations.iter().any(|v| v.signature == signature && !known.is_known(v)) {
+            Some(rr)
+        } else {
+            None
+        }
+    };
+    let mut best = still_fails(&case)?;
+    let mut budget = 400;
+    let mut i = case["steps"].as_array().map(|a| a.len()).unwrap_or(0);
+    while i > 1 && budget > 0 {
+        i -= 1;
+        budget -= 1;
+        let mut trial = case.clone();
+        if let Some(a) = trial["steps"].as_array_mut() {
+            if i >= a.len() {
+                continue;
+            }
+            a.remove(i);
+        }
+        if let Some(rr) = still_fails(&trial) {
+            case = trial;
+            best = rr;
+        }
+    }
+    Some((case, best))
+}
+
 pub fn write_violation(prop: Prop, r: &Runner, v: &[Violation], origin: &str) -> String {
     let dir = format!("{}/out/violations", verif_root());
     let _ = std::fs::create_dir_all(&dir);
@@ -284,7 +319,19 @@ fn worker(prop: Prop, p: &Profile, seed: u64, wk: u64, cases: u64, deadline: Opt
             let tape = Tape { world, ops };
             let r = eval_case(prop, p, &tape);
             let v: Vec<Violation> = unknown(&r, known).into_iter().cloned().collect();
-            let path = write_violation(prop, &r, &v, "generated search (shrunk)");
+            // shrink once more on the concrete steps (only for plain histories: the C13-C15 case
+            // shapes carry checks outside the step list)
+            let minimised = match (prop, v.first()) {
+                (Prop::C13 | Prop::C14 | Prop::C15, _) | (_, None) => None,
+                (_, Some(first)) => minimise_steps(prop, &r, &first.signature, known),
+            };
+            let (path, v) = match minimised {
+                Some((_, rr)) => {
+                    let vv: Vec<Violation> = unknown(&rr, known).into_iter().cloned().collect();
+                    (write_violation(prop, &rr, &vv, "generated search (shrunk twice: tape, then concrete steps)"), vv)
+                }
+                None => (write_violation(prop, &r, &v, "generated search (shrunk)"), v),
+            };
             Some(Failure {
                 violations: v,
                 replay_path: path,
